@@ -591,34 +591,44 @@ class ArchitectureFeatures:
         sys_cfg_section = "System_Config." + self.system_config
 
         if self.vela_config is not None and self.vela_config.has_section(sys_cfg_section):
-            self.core_clock = float(self._read_config(sys_cfg_section, "core_clock", self.core_clock))
+            self.core_clock = self._to_number(
+                float, "core_clock", self._read_config(sys_cfg_section, "core_clock", self.core_clock)
+            )
             self.axi0_port = self._read_port(sys_cfg_section, "axi0_port", self.axi0_port)
             self.axi1_port = self._read_port(sys_cfg_section, "axi1_port", self.axi1_port)
 
             for mem_area in (self.axi0_port, self.axi1_port):
-                self.memory_clock_scales[mem_area] = float(
+                self.memory_clock_scales[mem_area] = self._to_number(
+                    float,
+                    mem_area.name + "_clock_scale",
                     self._read_config(
                         sys_cfg_section, mem_area.name + "_clock_scale", self.memory_clock_scales[mem_area]
-                    )
+                    ),
                 )
-                self.memory_burst_length[mem_area] = int(
+                self.memory_burst_length[mem_area] = self._to_number(
+                    int,
+                    mem_area.name + "_burst_length",
                     self._read_config(
                         sys_cfg_section, mem_area.name + "_burst_length", self.memory_burst_length[mem_area]
-                    )
+                    ),
                 )
-                self.memory_latency[mem_area][BandwidthDirection.Read] = int(
+                self.memory_latency[mem_area][BandwidthDirection.Read] = self._to_number(
+                    int,
+                    mem_area.name + "_read_latency",
                     self._read_config(
                         sys_cfg_section,
                         mem_area.name + "_read_latency",
                         self.memory_latency[mem_area][BandwidthDirection.Read],
-                    )
+                    ),
                 )
-                self.memory_latency[mem_area][BandwidthDirection.Write] = int(
+                self.memory_latency[mem_area][BandwidthDirection.Write] = self._to_number(
+                    int,
+                    mem_area.name + "_write_latency",
                     self._read_config(
                         sys_cfg_section,
                         mem_area.name + "_write_latency",
                         self.memory_latency[mem_area][BandwidthDirection.Write],
-                    )
+                    ),
                 )
         elif self.system_config == ArchitectureFeatures.DEFAULT_CONFIG:
             self._set_default_sys_config()
@@ -637,18 +647,20 @@ class ArchitectureFeatures:
         mem_mode_section = "Memory_Mode." + self.memory_mode
 
         if self.vela_config is not None and self.vela_config.has_section(mem_mode_section):
-            self.const_mem_area = MemPort[
-                self._read_config(mem_mode_section, "const_mem_area", self.const_mem_area.name)
-            ]
-            self.arena_mem_area = MemPort[
-                self._read_config(mem_mode_section, "arena_mem_area", self.arena_mem_area.name)
-            ]
-            self.cache_mem_area = MemPort[
-                self._read_config(mem_mode_section, "cache_mem_area", self.cache_mem_area.name)
-            ]
+            self.const_mem_area = self._to_mem_port(
+                "const_mem_area", self._read_config(mem_mode_section, "const_mem_area", self.const_mem_area.name)
+            )
+            self.arena_mem_area = self._to_mem_port(
+                "arena_mem_area", self._read_config(mem_mode_section, "arena_mem_area", self.arena_mem_area.name)
+            )
+            self.cache_mem_area = self._to_mem_port(
+                "cache_mem_area", self._read_config(mem_mode_section, "cache_mem_area", self.cache_mem_area.name)
+            )
             found = []
-            self.arena_cache_size = int(
-                self._read_config(mem_mode_section, "arena_cache_size", self.arena_cache_size, found)
+            self.arena_cache_size = self._to_number(
+                int,
+                "arena_cache_size",
+                self._read_config(mem_mode_section, "arena_cache_size", self.arena_cache_size, found),
             )
             if found[-1]:
                 arena_cache_size_loc_text = "Configuration file"
@@ -747,9 +759,25 @@ class ArchitectureFeatures:
     def _read_port(self, section, key, default):
         """Reads an AXI port option; the value (or the default) must name a memory area"""
         name = self._read_config(section, key, default.name)
-        if name not in MemArea.__members__:
-            raise ConfigOptionError(key, name, ", ".join(area.name for area in MemArea.all()))
+        valid_names = [area.name for area in (MemArea.Sram, MemArea.Dram, MemArea.OnChipFlash, MemArea.OffChipFlash)]
+        if name not in valid_names:
+            raise ConfigOptionError(key, name, " or ".join(valid_names))
         return MemArea[name]
+
+    @staticmethod
+    def _to_mem_port(key, name):
+        """Converts the value of a memory mode option that names an AXI port"""
+        if name not in MemPort.__members__:
+            raise ConfigOptionError(key, name, " or ".join(MemPort.__members__))
+        return MemPort[name]
+
+    @staticmethod
+    def _to_number(number_type, key, value):
+        """Converts the value of an option that is a number (number_type is int or float)"""
+        try:
+            return number_type(value)
+        except ValueError:
+            raise ConfigOptionError(key, value, f"of type {number_type.__name__}")
 
     def _read_config(self, section, key, current_value, found=None, _visited=None):
         """
